@@ -12,6 +12,9 @@ WRAPS = ["socket", "setsockopt", "bind", "listen", "fcntl", "getsockname", "unli
          "find_url_handler"]
 
 
+_NO_INTERNALS = set()
+
+
 def daemon_sources():
     """Every cjet source file except posix/main.c, as listed by globbing the tree (so a new file is picked up)."""
     src = C.SRC
@@ -31,7 +34,21 @@ def daemon_sources():
 def build(variant="default", extra_defines=()):
     srcs = [os.path.join(C.ROOT, "harness", "simk", "simk.c")] + daemon_sources()
     link = ["-Wl," + ",".join("--wrap=" + w for w in WRAPS), "-lcrypt", "-lm"]
-    return C.cc_build("simk", srcs, variant=variant, link_flags=link, defines=extra_defines)
+    key = (C.SRC, variant, tuple(extra_defines))
+    if key in _NO_INTERNALS:
+        return C.cc_build("simk", srcs, variant=variant, link_flags=link, defines=tuple(extra_defines) + ("SIMK_NO_INTERNALS",))
+    try:
+        return C.cc_build("simk", srcs, variant=variant, link_flags=link, defines=extra_defines)
+    except C.BuildError as ex:
+        if "simk.c" not in str(ex) or "has no member named" not in str(ex):
+            raise
+        # The snapshot code reads the daemon's own structures (peer list, element lists, fetcher and routing tables); a
+        # declaration it names was renamed.  The harness is rebuilt without that part: the runs then carry no state images
+        # (image comparisons and the monitors that need them are skipped), everything observed at the kernel boundary stays.
+        _NO_INTERNALS.add(key)
+        C.HARNESS_DEGRADED.append("whole-daemon harness built without access to the daemon's internal structures "
+                                  "(a declaration changed): no state images in this run")
+        return C.cc_build("simk", srcs, variant=variant, link_flags=link, defines=tuple(extra_defines) + ("SIMK_NO_INTERNALS",))
 
 
 def run(binary, script, args=(), timeout=60):
